@@ -12,6 +12,12 @@ CLAIMED = {
  # id: (design section, technique, level text)
  "C07": ("§3 C07", "static analysis: SSA path/dominance ORDER rules, ATOMIC file-write idiom rule over backward path-origin slices, error-guard (GUARD) rules",
          "Every path of the flush/rotate/suffix code is checked for the orderings that crash recovery depends on (column data awaited before block summary before running .sfm; stats before .sfm; durable segmeta before rotated visibility before unrotated removal; suffix incremented and persisted before returned), every write-open of a recovery-critical file class is checked to be append-only or tmp+rename, and recovery is checked to adopt only successfully parsed .sfm files. All paths and all sites are covered, which no crash-sampling test can do; content equality after recovery is not decided."),
+ "C10": ("§3 C10", "static analysis: SSA dominance GUARD rules on the WAL readers (CRC-before-decode), writer/reader framing TABLE agreement, ORDER persist-before-discard with call-graph ownership of every discard site, ATOMIC rewrite rule",
+         "For every WAL block reader found in the wal package the check proves on all paths that the CRC of the buffer read is compared with the stored checksum before any payload-interpreting call or success return, that rejecting edges only log and return errors, that the size field is range-checked, and that cached decoded records are written only under the verified edge; the writer's framing constants and field order are compared with the readers'; every call site that may delete a WAL file is shown to be preceded by, and conditional on the success of, the call that persists its content. Replayed-content equality is not decided."),
+ "C14": ("§3 C14", "static analysis: dominance GUARD on the retention predicate with backward value slices (latest-time field vs horizon), loop-exit analysis of the selection loop, ORDER rules on the delete sequence, ATOMIC rewrite rule",
+         "Shows for all paths that a segment enters a victim map only on the accepting edge of latest-time <= horizon (horizon = now - retention, org-filtered candidates, every candidate examined), that durable meta entries are removed last, that shared tags-tree directories are subtracted after all marks, and that both meta files are rewritten via tmp+rename. The arithmetic of the volume/inode passes and post-pass searchability are not decided."),
+ "C18": ("§3 C18", "static analysis: dominance GUARD on ChecksumFile.readChunkAt, type-filtered interprocedural value-flow closure of column-file descriptors (who-may-read), error-edge GUARD on every ChecksumFile.ReadAt caller, cache-key typestate rule, writer pairing",
+         "Proves on all paths of readChunkAt that bytes of a checksummed chunk are returned only under the CRC-equal edge (CRC over exactly the bytes read, compared with the stored word, length bounded by the buffer, legacy branch only for legacy files); shows by value-flow closure that no descriptor that can hold a .csg file is read outside ChecksumFile; shows every reader decodes and marks a block as loaded only on the err==nil edge of the checksummed read; shows writeWip writes only through the chunk writer and flushes before success. Robustness of un-checksummed decoders is not decided."),
 }
 
 NOT_APPLICABLE = {
